@@ -113,6 +113,14 @@ def run(chk):
         yield ('2.1:observables:network-traffic:src_port=0', stix2.v21.NetworkTraffic, {'protocols': ['tcp'], 'src_ref': 'ipv4-addr--' + G.UUID, 'src_port': 0})
         yield ('2.1:observables:file:hashes-custom-first', stix2.v21.File, {'hashes': {'SHA-512': 'a' * 128, 'SHA-256': 'b' * 64}})
         yield ('2.1:observables:file:hashes-ssdeep-only', stix2.v21.File, {'hashes': {'SSDEEP': 'abc', 'TLSH': 'a' * 70}})
+        # custom observables whose identifier-contributing list names a property the decorator supplies itself (extensions, defanged, ...)
+        from stix2 import registry as _reg6
+        if 'x-vf-c06-contrib' not in _reg6.STIX2_OBJ_MAPS['2.1']['observables']:
+            stix2.v21.CustomObservable('x-vf-c06-contrib', [('x_a', stix2.properties.StringProperty())], id_contrib_props=['x_a', 'extensions', 'defanged'])(type('_C06X', (object,), {}))
+        XC6 = _reg6.STIX2_OBJ_MAPS['2.1']['observables']['x-vf-c06-contrib']
+        for kw6 in ({'x_a': 'v'}, {'extensions': {EXTD: {'extension_type': 'property-extension', 'p': 1}}}, {'extensions': {EXTD: {'extension_type': 'property-extension', 'p': 2}}},
+                    {'x_a': 'v', 'extensions': {EXTD: {'extension_type': 'property-extension', 'p': 1}}}, {'x_a': 'v', 'defanged': True}, {'defanged': True}):
+            yield ('2.1:observables:x-vf-c06-contrib:' + '+'.join(sorted(kw6)) + ':' + str(kw6.get('extensions', {}).get(EXTD, {}).get('p', '')), XC6, kw6)
         # hash dictionaries: the "one hash" rule applies to the object's own top-level `hashes` only -- every order of the four preferred algorithms there;
         # `hashes` dictionaries nested inside a contributing value (PE sections / optional header, NTFS streams, unregistered extension content) contribute whole
         H4 = {'MD5': 'a' * 32, 'SHA-1': 'b' * 40, 'SHA-256': 'c' * 64, 'SHA-512': 'd' * 128}
@@ -133,6 +141,10 @@ def run(chk):
         except Exception: return None
         d = json.loads(o.serialize(include_optional_defaults=True))          # (a defaulted contributing property is part of the object although the default serialization omits it)
         contributing = list(cls._id_contributing_properties)
+        if 'x-vf-c06-contrib' in label:          # a custom type: the contributing properties are those its declaration names (in that order), whoever supplies the property itself
+            declared = ['x_a', 'extensions', 'defanged']
+            if contributing != declared: return ('id#custom observable: contributing properties are the declared ones', f'{label}: declared id_contrib_props {declared}, the class carries {contributing}', {})
+            contributing = declared
         want = spec_id(d, contributing)
         tname = label.split(':')[2]
         if want is None:
@@ -180,7 +192,7 @@ def run(chk):
             for x in v: poke(x, depth + 1)
             if depth: v.append('p' if not v or isinstance(v[0], str) else 0 if isinstance(v[0], (int, float)) else copy.deepcopy(v[0]))
     for label, cls, kw in cc:
-        if 'x-vf-sco' in label or ' as ' in label: continue          # (custom observables keep dictionary-valued custom content by reference: outside this clause, see DESIGN 9.3)
+        if 'x-vf-sco' in label or 'x-vf-c06-contrib' in label or ' as ' in label: continue          # (custom observables keep dictionary-valued custom content by reference: outside this clause, see DESIGN 9.3)
         if not any(isinstance(v, (dict, list)) for v in kw.values()): continue
         mine = copy.deepcopy(kw)
         try: o = cls(**mine)
